@@ -335,6 +335,12 @@ func (g *gen) planEnum(i int) *enumPlan {
 		e.sparse = true
 		g.cls("enum-sparse-numbers")
 	}
+	if g.mode == Annotated && rapid.IntRange(0, 4).Draw(t, "enumnodefault") == 0 {
+		// (j5.ext.v1.enum).no_default: reflection drops the zero option, the exported
+		// option list starts at 1
+		e.noDefault = true
+		g.cls("enum-no-default")
+	}
 	if g.mode == Arbitrary {
 		switch rapid.IntRange(0, 5).Draw(t, "enumodd") {
 		case 0:
